@@ -1700,8 +1700,58 @@ def smap_attr(E, m, name):
 
 
 class SMapItems(SymIter):
+    """Snapshot iteration over the items of a symbolic map (for k, v in list(m.items())).
+
+    Loop rule over a finite set: ghost `done` (Array Int->Bool) = keys already visited, a subset of the snapshot keys.
+    An arbitrary iteration picks a key of the snapshot that is not done; the loop exits when done = snapshot.
+    spec.invariant(ctx) may use ctx.ghost['done'], ctx.ghost['snapshot'] (membership arrays) and ctx.ghost['key']."""
+
     def __init__(self, m):
         self.m = m
+        self.snapshot = m.has
+
+    def cut(self, E, node, env, spec, qual, k):
+        from . import engine as ENG_
+        tag = '%s#loop%d' % (qual, k)
+        entry = E.snapshot(env)
+        g = {'snapshot': self.snapshot, 'done': z3.K(z3.IntSort(), False), 'map': self.m}
+        ctx0 = ENG_.LoopCtx(E, env, 0, entry, 'entry')
+        ctx0.ghost = g
+        for name, e in spec.invariant(ctx0):
+            E.prove('%s.inv_entry[%s]' % (tag, name), e)
+        mode = E.path.choice(2, 'loop%d' % k)
+        done = z3.Array(E.path.fresh_name('done'), z3.IntSort(), z3.BoolSort())
+        x = z3.Int('done.x')
+        E.path.add(z3.ForAll([x], z3.Implies(z3.Select(done, x), z3.Select(self.snapshot, x))))
+        g['done'] = done
+        hctx = ENG_.LoopCtx(E, env, E.fresh_int('k.%s' % k, 0), entry, 'head')
+        hctx.ghost = g
+        E.havoc_loop(node, env, spec, hctx)
+        E.path.ghost.setdefault('loops', {})[(qual, k)] = hctx
+        for name, e in spec.invariant(hctx):
+            E.assume(e)
+        if mode == 0:
+            key = E.fresh_int('iter.key')
+            E.assume(z3.And(z3.Select(self.snapshot, I(key)), z3.Not(z3.Select(done, I(key)))))
+            g['key'] = key
+            val = self.m.valfn(E, self.m, key) if self.m.valfn is not None else SOpaque('mapvalue', 'value')
+            g['value'] = val
+            E.assign(node.target, (key, val), env)
+            try:
+                E.exec_block(node.body, env)
+            except BreakSig:
+                return
+            except ContinueSig:
+                pass
+            g['done'] = z3.Store(done, I(key), True)
+            ctx1 = ENG_.LoopCtx(E, env, mk_int(I(hctx.k) + 1), entry, 'step')
+            ctx1.ghost = g
+            for name, e in spec.invariant(ctx1):
+                E.prove('%s.inv_preserved[%s]' % (tag, name), e)
+            raise PathEnd('end of arbitrary iteration')
+        else:
+            E.path.add(z3.ForAll([x], z3.Select(done, x) == z3.Select(self.snapshot, x)))
+            E.exec_block(node.orelse, env)
 
 
 def value_attr(E, obj, name):
